@@ -226,6 +226,47 @@ DIRECTED.append(("module-keeps-its-rebound-builtins-after-a-caught-import-failur
                  ["[[caught], rebound type]", "[[caught, caught], rebound type]", "main print is untouched"]))
 
 
+# Isolation whatever KIND of value a global holds: main and a module each define globals holding a number, a string, a vector, a closure, a
+# class, an instance, a bound method, a native function, a bound native method, a fiber, a range, a module object and nil; each side reads
+# (and tries to assign) the other's names directly: every such access is a NameError, before and after the values are re-bound, from
+# top-level code, from a function, from a method and from a fiber body; and each side's own names of the same spelling stay its own.
+KINDS = [("num", "41"), ("str", '"text"'), ("vec", "[1, 2]"), ("closure", "|| 1"), ("class", "Holder"), ("inst", "Holder.new()"), ("bound", "Holder.new().get"),
+         ("native", "print"), ("native2", "clock"), ("boundnative", "[1].len"), ("fiber", "Fiber.new(|| 1)"), ("range", "0..3"), ("nilv", "nil")]
+
+
+def isolation_scenario():
+    main = ["#[constructor(new)] class Holder { fn get(self) { return 1; } }"]
+    mod = ["#[constructor(new)] class Holder { fn get(self) { return 2; } }"]
+    for k, v in KINDS:
+        main.append("var only_main_%s = %s;" % (k, v))
+        main.append("var shared_%s = %s;" % (k, v))
+        mod.append("var only_mod_%s = %s;" % (k, v))
+        mod.append('var shared_%s = "mod %s";' % (k, k))
+    probes = []
+    for k, _ in KINDS:
+        probes.append('    try { var x = only_main_%s; out.push("LEAK read %s"); } catch e { if type(e) != NameError { out.push("wrong error %s"); } }' % (k, k, k))
+        probes.append('    try { only_main_%s = 1; out.push("LEAK write %s"); } catch e { if type(e) != NameError { out.push("wrong error %s"); } }' % (k, k, k))
+        probes.append('    if shared_%s != "mod %s" { out.push("shared %s is not the module\'s own"); }' % (k, k, k))
+    body = "\n".join(probes)
+    mod += ["fn probe() {\n    var out = [];\n" + body + "\n    return out;\n}",
+            "#[constructor(new)] class Prober { fn probe(self) {\n    var out = [];\n" + body + "\n    return out;\n} }",
+            "fn probe_in_fiber() { return Fiber.new(|| probe()).call(); }",
+            "var at_load = probe();"]
+    main += ['import "isomod";', "print(isomod.at_load);", "print(isomod.probe());", "print(isomod.Prober.new().probe());", "print(isomod.probe_in_fiber());"]
+    for k, _ in KINDS:
+        main.append("only_main_%s = print; shared_%s = clock;" % (k, k))
+    main += ["print(isomod.probe());", "print(isomod.probe_in_fiber());", "var leaks = [];"]
+    for k, _ in KINDS:
+        main.append('try { var x = only_mod_%s; leaks.push("LEAK read %s"); } catch e { if type(e) != NameError { leaks.push("wrong error %s"); } }' % (k, k, k))
+        main.append('if shared_%s != clock { leaks.push("shared %s of main was changed"); }' % (k, k))
+    main += ["print(leaks);", "print(isomod.only_mod_num);", 'print(isomod.shared_native);']
+    return ("globals-are-private-whatever-kind-of-value-they-hold", "\n".join(main) + "\n", {"isomod": "\n".join(mod) + "\n"},
+            ["[]", "[]", "[]", "[]", "[]", "[]", "[]", "41", "mod native"])
+
+
+DIRECTED.append(isolation_scenario())
+
+
 def correspondence(ctx, model_ok=True):
     rng = ctx.rng.fork("c14")
     failures = []
